@@ -252,6 +252,10 @@ class Arr(object):
             self.shape = (self.ld, c)
         else:
             self.ld, self.off = max(1, r) + lay[0], lay[1]
+            # layouts with an offset end exactly with the operand (the minimal length the documentation requires);
+            # the others carry `tail` trailing sentinels
+            if lay[1] > 0 and c > 0 and r > 0:
+                tail = 0
             L = self.off + ((c - 1) * self.ld + r if (c > 0 and r > 0) else 0) + tail
             self.shape = (L, 1)
         flat = [_sent(tc, k) for k in range(L)]
